@@ -327,16 +327,106 @@ u_descs(uint64_t idx, void *arg)
         vh_sample("description", "e.g. %s", rt_describe(&inst.d));
 }
 
+/* a table with more than 65536 registers: indices that do not fit 16 bits */
+static void
+u_bigtable(uint64_t idx, void *arg)
+{
+    (void)arg;
+    enum { NREG = 70000 };
+    RegisterEntry *e = malloc(sizeof(RegisterEntry) * (NREG + 1));
+    RegisterAtom *mem = malloc(sizeof(RegisterAtom) * (NREG + 8));
+    static RegisterArea areas[2];
+    static const RegisterHandle at[] = { 1, 5, 255, 256, 65535, 65536, 65541, 69999 };
+    if (!e || !mem) {
+        vh_broken("allocation for the big table failed");
+        return;
+    }
+    for (int kind = 0; kind < 5; kind++)
+        for (size_t ai = 0; ai < (kind == 0 ? 1 : sizeof at / sizeof at[0]); ai++) {
+            RegisterHandle bad = at[ai];
+            memset(e, 0, sizeof(RegisterEntry) * (NREG + 1));
+            for (RegisterHandle i = 0; i < NREG; i++) {
+                e[i].type = REG_TYPE_UINT16;
+                e[i].address = 0x100 + i;
+                e[i].default_value.u16 = (uint16_t)(i * 7u + 1u);
+                e[i].check.type = REGV_TYPE_MIN;
+                e[i].check.arg.min.u16 = 0;
+            }
+            e[NREG].type = REG_TYPE_INVALID;
+            memset(areas, 0, sizeof areas);
+            areas[0].read = reg_mem_read;
+            areas[0].write = reg_mem_write;
+            areas[0].flags = REG_AF_RW;
+            areas[0].base = 0x100;
+            areas[0].size = NREG + 4;
+            areas[0].mem = mem;
+            int expcode = REG_INIT_SUCCESS;
+            if (kind == 1) { /* out of order */
+                e[bad].address = e[bad - 1].address - 1;
+                expcode = REG_INIT_ENTRY_INVALID_ORDER;
+            } else if (kind == 2) { /* duplicate address */
+                e[bad].address = e[bad - 1].address;
+                expcode = REG_INIT_ENTRY_ADDRESS_OVERLAP;
+            } else if (kind == 3) { /* default below its minimum */
+                e[bad].check.arg.min.u16 = 100;
+                e[bad].default_value.u16 = 99;
+                expcode = REG_INIT_ENTRY_INVALID_DEFAULT;
+            } else if (kind == 4) { /* beyond the area: only the last register can be moved there and stay ordered */
+                bad = NREG - 1;
+                e[bad].address = 0x100 + NREG + 4;
+                expcode = REG_INIT_ENTRY_IN_MEMORY_HOLE;
+                if (ai > 0)
+                    continue;
+            }
+            RegisterTable t;
+            memset(&t, 0, sizeof t);
+            t.area = areas;
+            t.entry = e;
+            VH_CASE4(idx, kind, bad, 0);
+            RegisterInit ri = register_init(&t);
+            char key[64];
+            snprintf(key, sizeof key, "workload=big-table expected=%s", codename[expcode]);
+            if ((int)ri.code != expcode || (expcode != REG_INIT_SUCCESS && ri.pos.entry != bad))
+                vh_fail("big-table-init", key, "70000 registers, offending register %u: code=%s index=%u", bad,
+                        ri.code <= 10 ? codename[ri.code] : "?", ri.pos.entry);
+            if (expcode == REG_INIT_SUCCESS) {
+                if (t.entries != NREG || areas[0].entry.first != 0 || areas[0].entry.last != NREG - 1
+                    || areas[0].entry.count != NREG)
+                    vh_fail("big-table-run", key, "entries=%u first=%u last=%u count=%u", t.entries, areas[0].entry.first,
+                            areas[0].entry.last, areas[0].entry.count);
+                static const RegisterHandle probe[] = { 0, 255, 256, 65535, 65536, 69999 };
+                for (size_t p = 0; p < 6; p++) {
+                    RegisterValue g;
+                    RegisterAccess a = register_get(&t, probe[p], &g);
+                    if (a.code != REG_ACCESS_SUCCESS || g.value.u16 != (uint16_t)(probe[p] * 7u + 1u))
+                        vh_fail("big-table-default", key, "register %u: code=%d value=%u", probe[p], a.code, g.value.u16);
+                }
+            } else {
+                RegisterValue g;
+                if (register_get(&t, 0, &g).code != REG_ACCESS_UNINITIALISED)
+                    vh_fail("big-table-uninitialised", key, "register_get after the failed initialisation");
+            }
+            VH_COUNT("table with more than 65536 registers");
+            vh_sig(0x04100000ull ^ ((uint64_t)kind << 32) ^ bad);
+        }
+    free(e);
+    free(mem);
+    vh_sample("big table", "one memory area with 70000 u16 registers; out-of-order, duplicate address and unacceptable default "
+                           "at indices 1, 5, 255, 256, 65535, 65536, 65541, 69999");
+}
+
 void
 harness_run(void)
 {
+    vh_unit("bigtable", 0, u_bigtable, NULL);
     for (uint64_t i = 0; i < (vh_tier ? 1200u : 128u); i++)
         vh_unit("descs", i, u_descs, NULL);
     static const char *req[] = { "expected: success", "expected: no-areas", "expected: area-order",
                                  "expected: area-overlap", "expected: entry-order", "expected: entry-overlap",
                                  "expected: entry-in-hole", "expected: entry-invalid-default", "default read back",
                                  "area without registers", "area register run checked",
-                                 "rule-major and index-major readings differ (both accepted)" };
+                                 "rule-major and index-major readings differ (both accepted)",
+                                 "table with more than 65536 registers" };
     for (size_t i = 0; i < sizeof req / sizeof req[0]; i++)
         vh_require(req[i]);
 }
